@@ -745,3 +745,37 @@ class TimeWindowPush(PushKernel):
 
 
 KERNELS += [SizeWindowPush, TimeWindowPush]
+
+
+class SizeAllValid(Kernel):
+    tu = TU
+    name = "ts_data_window_ops.cpp:SizeTSWContext::size_all_valid"
+    fn_name = "size_all_valid"
+    filter = "SizeTSWContext::size_all_valid"
+    property_ids = ("C05",)
+    scope = {"lo": 0, "hi": 4}
+    title = "size_all_valid: a tick-count window is valid exactly when it holds at least its minimum count"
+
+    def setup(self, I):
+        self.size, self.min_period = z3.Int("window_size"), z3.Int("min_period")
+        I.ctx.assume(z3.And(self.size >= 0, self.min_period >= 0))
+        return None, {"context": Ptr(Obj("context", "context")), "memory": Ptr(Obj("memory", "memory"))}
+
+    def function_handler(self, name, node, callee_node):
+        if name == "window_size":
+            return lambda I, a, n: self.size
+        if name == "layout_for":
+            lay = Obj("SizeTSWDataLayout", "layout")
+
+            def h(I, a, n):
+                I.ctx.store[(lay.oid, "min_period")] = self.min_period
+                return lay
+            return h
+        return Kernel.function_handler(self, name, node, callee_node)
+
+    def post(self, I, ret):
+        I.ctx.oblige("ensures.valid<=>size>=min_period[C05 a tick-count window is valid only once its minimum count is reached]",
+                     ret == (self.size >= self.min_period), kind="post-normal")
+
+
+KERNELS += [SizeAllValid]
